@@ -17,19 +17,24 @@
   OBLIGATION c01_data_partial_nodup
   OBLIGATION c01_data_partial_nodup_example
   OBLIGATION c01_create_value_object_groups
-  OPEN c01_data_mergeable_full
+  OBLIGATION c01_exec_union_is_merge
+  OBLIGATION c01_data_mergeable_full
+  OBLIGATION c01_data_mergeable_example
 
   `c01_data_full` (the statement as first written, without hypotheses) is REFUTED
   (`c01_data_full_needs_validity`); for the executor as found validity alone did not rescue it
   (`c01_repeated_key_error_witness`, toggle `mergeKeepsPartialOnNull`).  What holds:
-  `c01_data_partial_nodup` (all worlds, faults included, documents without repeated response keys);
-  open: the restated full statement `c01_data_mergeable_full` (repeated keys — the merge lemma).
+  `c01_data_mergeable_full` — the full statement restated with the validity hypotheses, repeated
+  response keys included (all worlds, faults included); its core is the MERGE LEMMA
+  `c01_exec_union_is_merge`.  `c01_data_partial_nodup` is the earlier special case of distinct keys.
 -/
 import AGV.Lemmas.ExecStatic
 import AGV.Lemmas.ExecStaticData
+import AGV.Lemmas.ExecStaticMerge
+import AGV.Lemmas.ExecStaticMergeExec
 
 namespace AGV.Props.C01
-open AGV.Core AGV.Model.ExecStatic AGV.Lemmas.ExecStatic AGV.Lemmas.ExecStaticData
+open AGV.Core AGV.Model.ExecStatic AGV.Lemmas.ExecStatic AGV.Lemmas.ExecStaticData AGV.Lemmas.ExecStaticMerge
 
 /-- The statement as first written: for every schema, document, variables and data world, the data
     of the executor model with no defect equals the data of the specification's execution
@@ -242,7 +247,7 @@ example : (run Defects.none Ex.S1 Ex.doc1 none [] Ex.w1 10).val = some (.obj [("
     ("node", .obj [("__typename", .str "P"), ("nm", .str "p")]),
     ("items", .list [.obj [("a", .int 5)], .obj [("a", .null)]])]) := by rfl
 
--- ------------------------------------------------------------------ stage 3 (open): repeated response keys
+-- ------------------------------------------------------------------ stage 3: repeated response keys
 
 /-- first step of the merge lemma, for EVERY list of field results (no shape hypothesis): the object
     built by `create_value_object`/`insert_value` is "group the results by response key in order of
@@ -253,21 +258,85 @@ theorem c01_create_value_object_groups (D : Defects) (fuel : Nat) (kvs : List (S
       .obj ((groupKV kvs).map (fun g => (g.1, mergeAll (merge D.mergeKeepsPartialOnNull (4 * fuel)) g.2))) :=
   createValueObject_group D fuel kvs
 
-/-- OPEN — the full statement, restated with the hypotheses found necessary (validity in the sense
+/-- THE MERGE LEMMA (specification side).  Executing the union `a ++ b` of two selection sets on an
+    object is the `merge_value` of executing `a` and executing `b` (objects key by key in order of first
+    occurrence, lists item by item, a `null` on either side wins, a propagating error on either side
+    propagates) — for every object, depth, path and every merge depth `N ≥ 4·fuel`, when the union is
+    mergeable (`MKP`, the proposition behind `mergeableKeys`: occurrences of one response key name one
+    field with one argument list, recursively on the merged sub-selections; no fragment spread twice) and
+    no directive acts.  This is what makes "one field future per occurrence, deep merge afterwards"
+    (the executor) agree with "merge the selection sets, execute once" (the specification). -/
+theorem c01_exec_union_is_merge (c : Model.ExecStatic.Ctx) (H : DataHyps c) (fuel : Nat) (st rt : String) (id : Nat)
+    (a b : List Sel) (path : List PathSeg) (N : Nat) (hrt : IsObj c.S rt) (hst : AGV.Spec.Exec.doesApply c.S rt st = true)
+    (ha : selsInert c.vars a = true) (hb : selsInert c.vars b = true) (hmk : MKP c fuel st rt (a ++ b)) (hN : 4 * fuel ≤ N) :
+    (AGV.Spec.Exec.execSet (sc c) fuel rt id (a ++ b) path).val =
+      mergeO N (AGV.Spec.Exec.execSet (sc c) fuel rt id a path).val (AGV.Spec.Exec.execSet (sc c) fuel rt id b path).val :=
+  execSet_merge c H fuel st rt id a b path N hrt hst ha hb hmk hN
+
+/-- DATA EQUALITY, the full statement restated with the hypotheses found necessary (validity in the sense
     of `mergeableKeys`: every collected field exists, occurrences of one response key name the same
-    field with the same arguments, recursively on the merged sub-selections; a consistent schema;
-    directives that do not act; no `Int` leaf for a `Float` field): the executor model without defects
-    returns the specification's data, in every world (faults included — with the repaired
-    `merge_value`; the pinned one needs error-free executions, `c01_repeated_key_error_witness`).
-    `c01_data_partial_nodup` is the case of pairwise distinct keys.  Missing: the merge lemma
-    (`collect_append`, `c01_create_value_object_groups`, then associativity/idempotence of `merge` on
-    values completed from one resolver result — a SameShape invariant). -/
-def c01_data_mergeable_full : Prop :=
+    field with the same arguments — `argsSame`, structural equality —, recursively on the merged
+    sub-selections, list depth ≤ 3 for repeated keys (the depth `merge_value` is modelled to); a consistent
+    schema; directives that do not act; no `Int` leaf for a `Float` field): the executor model without
+    defects returns the specification's data, in every world (resolver failures, nulls in non-null
+    positions, NaN, ill-typed leaves included) and at every fuel.  The pinned `merge_value` needs
+    error-free executions instead (`c01_repeated_key_error_witness`).
+    `c01_data_partial_nodup` is the case of pairwise distinct keys. -/
+theorem c01_data_mergeable_full :
   ∀ (S : Schema) (d : Doc) (opName : Option String) (raw : List (String × GValue)) (w : World) (fuel : Nat),
     (∀ op, AGV.Spec.Exec.selectOp d opName = some op →
       IsObj S (rootOf S op) ∧ DataHyps (runCtx S d op raw w) ∧
       selsInert (AGV.Spec.Exec.coerceVars op.vars raw) op.sels = true ∧
       mergeableKeys (runCtx S d op raw w) fuel (rootOf S op) (rootOf S op) op.sels = true) →
-    (Model.ExecStatic.run Defects.none S d opName raw w fuel).val = (AGV.Spec.Exec.run S d opName raw w fuel).val
+    (Model.ExecStatic.run Defects.none S d opName raw w fuel).val = (AGV.Spec.Exec.run S d opName raw w fuel).val :=
+  fun S d opName raw w fuel H => run_val_eq_mergeable S d opName raw w fuel H
+
+/-- `{ obj { name } obj { a ...F } x: obj { f } x: obj { a } items { a } items { name f } node { __typename } node { ... on P { nm: name } } }`
+    over `Ex.S1`/`Ex.w1`: every top-level key occurs twice (an object; an aliased object whose first
+    occurrence is nulled by the NaN in `f: Float!`; a list of non-null objects with a failing resolver and
+    a NaN below; an interface with a type-conditioned fragment), `a` repeats inside the merged `obj` -/
+def opRep : OpDef := { ty := .query, name := none, vars := [], dirs := [], sels := [
+  Sel.field none "obj" [] [] [Sel.field none "name" [] [] [] p0] p0,
+  Sel.field none "obj" [] [] [Sel.field none "a" [] [] [] p0, Sel.spread "F" [] p0] p0,
+  Sel.field (some "x") "obj" [] [] [Sel.field none "f" [] [] [] p0] p0,
+  Sel.field (some "x") "obj" [] [] [Sel.field none "a" [] [] [] p0] p0,
+  Sel.field none "items" [] [] [Sel.field none "a" [] [] [] p0] p0,
+  Sel.field none "items" [] [] [Sel.field none "name" [] [] [] p0, Sel.field none "f" [] [] [] p0] p0,
+  Sel.field none "node" [] [] [Sel.field none "__typename" [] [] [] p0] p0,
+  Sel.field none "node" [] [] [Sel.inline (some "P") [] [Sel.field (some "nm") "name" [] [] [] p0] p0] p0] }
+def docRep : Doc := { ops := [opRep], frags := [Ex.fragF] }
+
+/-- the hypotheses of `c01_data_mergeable_full` hold for `docRep` (and `noRepeatedKeys` does not) -/
+theorem c01_data_mergeable_example :
+    (∀ op, AGV.Spec.Exec.selectOp docRep none = some op →
+      IsObj Ex.S1 (rootOf Ex.S1 op) ∧ DataHyps (runCtx Ex.S1 docRep op [] Ex.w1) ∧
+      selsInert (AGV.Spec.Exec.coerceVars op.vars []) op.sels = true ∧
+      mergeableKeys (runCtx Ex.S1 docRep op [] Ex.w1) 10 (rootOf Ex.S1 op) (rootOf Ex.S1 op) op.sels = true) ∧
+    (∀ op, AGV.Spec.Exec.selectOp docRep none = some op →
+      noRepeatedKeys (runCtx Ex.S1 docRep op [] Ex.w1) 10 (rootOf Ex.S1 op) (rootOf Ex.S1 op) op.sels = false) := by
+  constructor
+  · intro op hop
+    have : op = opRep := by simpa [AGV.Spec.Exec.selectOp, docRep] using hop.symm
+    subst this
+    exact ⟨⟨Ex.tQuery, rfl, rfl⟩,
+      { noDefect := rfl
+        schema := schemaOK_of_wf _ (by decide)
+        builtins := by decide
+        frags := by decide
+        floats := floats_of_world _ (by decide) },
+      by decide, by decide⟩
+  · intro op hop
+    have : op = opRep := by simpa [AGV.Spec.Exec.selectOp, docRep] using hop.symm
+    subst this
+    decide
+
+example : (run Defects.none Ex.S1 docRep none [] Ex.w1 10).val = (AGV.Spec.Exec.run Ex.S1 docRep none [] Ex.w1 10).val :=
+  c01_data_mergeable_full Ex.S1 docRep none [] Ex.w1 10 c01_data_mergeable_example.1
+
+/-- the instance is not vacuous: merged objects, a key nulled by one of its occurrences, merged list items -/
+example : (run Defects.none Ex.S1 docRep none [] Ex.w1 10).val = some (.obj [
+    ("obj", .obj [("name", .str "x"), ("a", .int 5)]), ("x", .null),
+    ("items", .null),
+    ("node", .obj [("__typename", .str "P"), ("nm", .str "p")])]) := by rfl
 
 end AGV.Props.C01
